@@ -315,4 +315,24 @@ theorem trav_no_panic (m : Method) (ell : Bool) (val : Json) : ∀ (parts : List
     | num t => rw [trav_scalar (by simp) (by simp)]; simp
     | str t => rw [trav_scalar (by simp) (by simp)]; simp
 
+theorem arrayOp_get_ok {ell : Bool} {val : Json} {idxStr : Bytes} {arr : List Json} {x : Json}
+    (h : (arrayOp .get ell val idxStr arr).2 = .ok (some x)) :
+    ∃ i : Int, atoi idxStr = some i ∧ 0 ≤ i ∧ i < arr.length ∧ arr[i.toNat]? = some x := by
+  simp only [arrayOp] at h
+  (repeat' split at h) <;> simp_all
+
+theorem arrayOp_patch_ok {ell : Bool} {val : Json} {idxStr : Bytes} {arr : List Json} {i : Int}
+    (ha : atoi idxStr = some i) (h0 : 0 ≤ i) (h1 : i < arr.length) :
+    arrayOp .patch ell val idxStr arr = (arr.set i.toNat val, .ok none) := by
+  have h3 : i.toNat < arr.length := by omega
+  simp [arrayOp, ha, h3]
+  omega
+
+theorem arrayOp_get_at {ell : Bool} {val : Json} {idxStr : Bytes} {arr : List Json} {i : Int} {x : Json}
+    (ha : atoi idxStr = some i) (h0 : 0 ≤ i) (h1 : i < arr.length) (hx : arr[i.toNat]? = some x) :
+    (arrayOp .get ell val idxStr arr).2 = .ok (some x) := by
+  have h2 : ¬ (i < 0 ∨ (arr.length : Int) ≤ i ∨ (arr.length : Int) < i) := by omega
+  simp [arrayOp, ha, hx, h2]
+
+
 end CaddyModel.C12
